@@ -83,7 +83,15 @@ class StmtMixin:
             else:
                 raise Unsupported("raise of %r" % (v,), node)
             return
-        raise Unsupported("raise form", node)
+        # raise <expression>: an exception object of unknown class (modelled as a plain Exception)
+        for st1, v in self.ev(exc, st):
+            if isinstance(v, Raise):
+                yield st1, ("raise", v.exc)
+            elif isinstance(v, ExcVal):
+                yield st1, ("raise", v)
+            else:
+                self.note_assumption("`raise <expr>` of a stored exception object is modelled as raising Exception")
+                yield st1, ("raise", ExcVal("Exception"))
 
     def ev_exc_fields(self, call, st):
         """Keyword arguments of an exception constructor that name data (key=, position=, query=, store=)."""
